@@ -102,11 +102,13 @@ func (l *Ledger) Chain() []types.Block {
 	return out
 }
 
-// HasSupplement reports whether the chain store rule gives the child of this
-// ledger a v1 supplement (v1 state is frozen once the tip reaches the v2
-// require height).
+// HasSupplement reports whether the child of this ledger has a v1 supplement.
+// The rule is core's, not the chain store's: consensus demands an empty
+// supplement for every block whose own height (the child height) is at or
+// above the v2 require height, so a v1 contract whose window ends exactly at
+// the require height (or later) is never expired.
 func (l *Ledger) HasSupplement() bool {
-	return l.State.Index.Height < l.State.Network.HardforkV2.RequireHeight
+	return l.State.Index.Height+1 < l.State.Network.HardforkV2.RequireHeight
 }
 
 // SupplementFor builds the v1 supplement of block b on top of l. order, if
@@ -134,7 +136,10 @@ func (l *Ledger) SupplementFor(b types.Block, order []types.FileContractID) (bs 
 
 // SupplementForTxn builds the v1 supplement of one transaction on top of l.
 func (l *Ledger) SupplementForTxn(txn types.Transaction) (ts consensus.V1TransactionSupplement) {
-	if !l.HasSupplement() {
+	// (tip-based on purpose: at tip = require height - 1 every v1 transaction is
+	// invalid whatever its supplement, so nothing may be demanded of the store
+	// there beyond what it documents; the block rule above is core's)
+	if l.State.Index.Height >= l.State.Network.HardforkV2.RequireHeight {
 		return
 	}
 	for _, sci := range txn.SiacoinInputs {
@@ -187,11 +192,11 @@ func (l *Ledger) applyUnchecked(b types.Block, bs consensus.V1BlockSupplement, t
 	cs, cau := consensus.ApplyBlock(l.State, b, bs, ts)
 	c := &Ledger{
 		State: cs, Parent: l, Block: b, Supplement: bs,
-		SCE:   make(map[types.SiacoinOutputID]types.SiacoinElement, len(l.SCE)+4),
-		SFE:   make(map[types.SiafundOutputID]types.SiafundElement, len(l.SFE)+1),
-		FCE:   make(map[types.FileContractID]types.FileContractElement, len(l.FCE)+1),
-		V2FCE: make(map[types.FileContractID]types.V2FileContractElement, len(l.V2FCE)+1),
-		CIE:   make(map[uint64]types.ChainIndexElement, len(l.CIE)+1),
+		SCE:      make(map[types.SiacoinOutputID]types.SiacoinElement, len(l.SCE)+4),
+		SFE:      make(map[types.SiafundOutputID]types.SiafundElement, len(l.SFE)+1),
+		FCE:      make(map[types.FileContractID]types.FileContractElement, len(l.FCE)+1),
+		V2FCE:    make(map[types.FileContractID]types.V2FileContractElement, len(l.V2FCE)+1),
+		CIE:      make(map[uint64]types.ChainIndexElement, len(l.CIE)+1),
 		Expiring: make(map[uint64][]types.FileContractID, len(l.Expiring)), UsedWindowEnds: make(map[uint64]bool, len(l.UsedWindowEnds)),
 		genesisTimestamp: l.genesisTimestamp,
 	}
@@ -304,9 +309,9 @@ func (l *Ledger) expRemove(id types.FileContractID, windowEnd uint64) {
 	}
 }
 
-func copySCE(e types.SiacoinElement) types.SiacoinElement       { return e.Copy() }
-func copySFE(e types.SiafundElement) types.SiafundElement       { return e.Copy() }
-func copyFCE(e types.FileContractElement) types.FileContractElement { return e.Copy() }
+func copySCE(e types.SiacoinElement) types.SiacoinElement                 { return e.Copy() }
+func copySFE(e types.SiafundElement) types.SiafundElement                 { return e.Copy() }
+func copyFCE(e types.FileContractElement) types.FileContractElement       { return e.Copy() }
 func copyV2FCE(e types.V2FileContractElement) types.V2FileContractElement { return e.Copy() }
 
 func copyFCDiff(d consensus.FileContractElementDiff) consensus.FileContractElementDiff {
